@@ -131,11 +131,13 @@ def record():
         except Exception:
             text = ""
         events.append({"op": "status", "n": n, "has": 1 if has else 0, "table": 1,
-                       "ttext": cps(SERVICE_STATUS[n]) if has else [], "text": cps(text)})
+                       "ttext": (cps(SERVICE_STATUS[n]) if isinstance(SERVICE_STATUS[n], str) else [0]) if has else [], "text": cps(text)})
     for st, exts in EXTEND_CODES.items():
         for ext, ttext in exts.items():
             if not isinstance(ext, int) or ext < 0 or ext > 0xFFFFFFFF or not (0 <= st <= 255):
                 continue
+            if not isinstance(ttext, str):
+                ttext = "\x00"                       # a table entry that is not a text can never be reported correctly
             msgs = [bytes(10) + bytes([st, 2]) + ext.to_bytes(4, "little")]          # two additional-status words
             if ext <= 0xFFFF:
                 msgs.append(bytes(10) + bytes([st, 1]) + ext.to_bytes(2, "little"))  # one word
